@@ -250,6 +250,13 @@ pub fn run_c20(a: &Args) {
     assert_send_sync::<FlatEx<f64>>(); assert_send_sync::<DeepEx<'static, f64>>(); assert_send_sync::<FlatExVal<i32, f64>>(); assert_send_sync::<FlatEx<f32>>();
     assert_send_sync::<crate::term::FE>(); assert_send_sync::<crate::term::DE>();
     let texts: Vec<String> = ["sin(x+3+2)*y", "x^2/4/2-y", "max(1, min(2,3))+x", "-(x+1)*(y-2)^2", "{α}+x*PI", "x/y/2*3+sin cos x", "1+2*3-4/5^2", "atan2(x, y)+log2(8)"].iter().map(|s| s.to_string()).collect();
+    // long texts: more variable occurrences than any inline buffer holds (16, 32, 64), values that are not interchangeable
+    let mut texts = texts;
+    texts.push((0..20).map(|i| format!("v{i:02}*{}", i + 1)).collect::<Vec<_>>().join("+"));
+    texts.push((0..18).map(|i| if i % 2 == 0 { "x".to_string() } else { "y".to_string() }).collect::<Vec<_>>().join("-") + "/y");
+    texts.push((0..40).map(|i| format!("{{w{}}}/{}", (i * 7) % 23, i + 2)).collect::<Vec<_>>().join("-"));
+    texts.push((0..70).map(|i| format!("u{:02}^2", 69 - i)).collect::<Vec<_>>().join("-"));
+    let texts = texts;
     let n_threads = [2usize, 4, 8, 16];
     let rounds = a.n.max(1);
     let mut histories = 0u64; let mut bad: Vec<String> = vec![];
@@ -265,11 +272,17 @@ pub fn run_c20(a: &Args) {
                 let f = FlatEx::<f64>::parse(&tx[i]).unwrap(); let n = f.var_names().len();
                 let vals: Vec<f64> = (0..n).map(|q| 0.5 + q as f64).collect();
                 out.push((i, f.eval(&vals).unwrap().to_bits()));
+                let mut hh = 0u64; for nm in f.var_names() { for b in nm.bytes() { hh = hh.wrapping_mul(1099511628211).wrapping_add(b as u64); } hh = hh.wrapping_mul(31); }
+                out.push((300 + i, hh));
+                let d = DeepEx::<f64>::parse(&tx[i]).unwrap(); out.push((200 + i, d.eval(&vals).unwrap().to_bits()));
                 if let Some(sh) = &sh { out.push((100, sh.0.eval(&[0.5, 1.5]).unwrap().to_bits())); out.push((101, sh.1.eval(&[0.5, 1.5]).unwrap().to_bits())); }
             }
             out }) }).collect();
         for h in handles { match h.join() { Ok(out) => { histories += 1;
-            for (i, bits) in out { let want = if i < 100 { let f = FlatEx::<f64>::parse(&texts[i]).unwrap(); let n = f.var_names().len(); f.eval(&(0..n).map(|q| 0.5 + q as f64).collect::<Vec<_>>()).unwrap().to_bits() }
+            for (i, bits) in out { let want = if i >= 300 { let f = FlatEx::<f64>::parse(&texts[i - 300]).unwrap(); let mut sorted: Vec<String> = f.var_names().to_vec().iter().map(|s| s.to_string()).collect(); sorted.sort(); sorted.dedup();
+                    let mut hh = 0u64; for nm in &sorted { for b in nm.bytes() { hh = hh.wrapping_mul(1099511628211).wrapping_add(b as u64); } hh = hh.wrapping_mul(31); } hh }
+                else if i >= 200 { let f = DeepEx::<f64>::parse(&texts[i - 200]).unwrap(); let n = f.var_names().len(); f.eval(&(0..n).map(|q| 0.5 + q as f64).collect::<Vec<_>>()).unwrap().to_bits() }
+                else if i < 100 { let f = FlatEx::<f64>::parse(&texts[i]).unwrap(); let n = f.var_names().len(); f.eval(&(0..n).map(|q| 0.5 + q as f64).collect::<Vec<_>>()).unwrap().to_bits() }
                 else if i == 100 { FlatEx::<f64>::parse(&texts[0]).unwrap().eval(&[0.5, 1.5]).unwrap().to_bits() } else { DeepEx::<f64>::parse(&texts[3]).unwrap().eval(&[0.5, 1.5]).unwrap().to_bits() };
                 if bits != want { bad.push(format!("threads={nt} round={round} item={i}: {bits:x} vs sequential {want:x}")); } } }
             Err(_) => bad.push(format!("threads={nt} round={round}: a thread panicked")) } }
@@ -471,14 +484,34 @@ pub fn run_c18v(a: &Args) {
     for f in funs { texts.push(format!("{f}(x/3+0.2)")); texts.push(format!("y*{f}(0.3*x+0.1)+x")); texts.push(format!("{f}(0.4) * x + {f}(x/4+0.1) if x > 0.6 else {f}(0.2+x/5)")); }
     for _ in 0..a.n { let f1 = funs[r.below(funs.len())]; let f2 = funs[r.below(funs.len())]; let c = ["x > 0.7", "y <= 0.5", "x < y", "x + y > 1.3", "x != 2", "x == y"][r.below(6)];
         texts.push(format!("({f1}(x/4+0.15)*y) if {c} else ({f2}(0.1+y/5)+x/3)")); }
+    // arithmetic inside the comparison operands, without parentheses (the comparison rules carry the VALUES of their operands)
+    for t in ["x^2 if x - 1 > 0 else 3*x", "x*y if x - y < 0.2 else x/y", "x if 2*x - y >= x + 0.1 else y*x", "sin(x) if x * 2 > y / 2 else cos(x)", "x*x if y - x - 0.1 > 0 else 2*x",
+        "x^2 if x + y > 1 else x", "x/y if x / y > 1.5 else y/x", "x*3 if x - 0.5 == y - 0.5 else x*5", "exp(x) if -x + 1 < y else ln(x+1)", "x^3 if 1 - x > y - 1 else x^2", "y*x if x * y - 0.3 != 0 else x",
+        "x*x if x ^ 2 > y else y*y", "2*x if x - 1 > 0 else (3*x if y - x > 0.2 else 5*x)"] { texts.push(t.to_string()); }
+    for _ in 0..a.n { let ops = ["+", "-", "*", "/"]; let cmp = [">", "<", ">=", "<=", "!="][r.below(5)];
+        let (l1, l2, r1) = (["x", "y", "0.4", "2"][r.below(4)], ["x", "y", "0.7", "1"][r.below(4)], ["x", "y", "0.5", "1.2"][r.below(4)]);
+        let f1 = funs[r.below(funs.len())];
+        texts.push(format!("{f1}(x/4+0.15)*y if {l1} {} {l2} {cmp} {r1} else x/3+y*y", ops[r.below(4)]));
+        texts.push(format!("x*y if {r1} {cmp} {l1} {} {l2} {} 0.1 else x+y*x", ops[r.below(4)], ops[r.below(2)])); }
     let pts: Vec<Vec<f64>> = vec![vec![0.3, 0.8], vec![0.9, 0.4], vec![1.3, 0.2], vec![0.55, 0.55001], vec![2.0, 3.0], vec![1.0, 2.0], vec![3.0, 1.0], vec![0.37, 0.453]];
     struct C { note: String, family: &'static str, ok: bool, onote: String, answer: String }
     let mut cases: Vec<C> = vec![];
     for text in &texts {
         let Ok(e) = parse_val::<i32, f64>(text) else { cases.push(C { note: text.clone(), family: "val-derivative", ok: false, onote: "the text does not parse".into(), answer: String::new() }); continue };
         let nv = e.var_names().len();
-        for idx in 0..nv {
-            let d = match e.clone().partial(idx) { Ok(d) => d, Err(er) => { cases.push(C { note: format!("d/dv{idx} {text}"), family: "val-derivative", ok: false, onote: format!("partial failed: {er}"), answer: String::new() }); continue } };
+        type DV<'a> = exmex::DeepEx<'a, V, exmex::ValOpsFactory<i32, f64>, exmex::ValMatcher>;
+        for (idx, route) in (0..nv).flat_map(|i| [(i, "flat"), (i, "deep"), (i, "flat-to-deep")]) {
+            // the derivative through FlatExVal::partial, through DeepEx::<Val>::parse(..).partial and through to_deepex().partial
+            let dd: Result<Box<dyn Fn(&[V]) -> exmex::ExResult<V>>, String> = match route {
+                "flat" => e.clone().partial(idx).map(|d| Box::new(move |v: &[V]| d.eval(v)) as Box<dyn Fn(&[V]) -> exmex::ExResult<V>>).map_err(|er| er.to_string()),
+                "deep" => { let leaked: &'static str = Box::leak(text.clone().into_boxed_str());
+                    std::panic::catch_unwind(|| DV::parse(leaked).and_then(|d| d.partial(idx))).unwrap_or_else(|_| Err(exmex::ExError::new("PANIC")))
+                        .map(|d| Box::new(move |v: &[V]| d.eval(v)) as Box<dyn Fn(&[V]) -> exmex::ExResult<V>>).map_err(|er| er.to_string()) }
+                _ => e.clone().to_deepex().and_then(|d| d.partial(idx)).map(|d| Box::new(move |v: &[V]| d.eval(v)) as Box<dyn Fn(&[V]) -> exmex::ExResult<V>>).map_err(|er| er.to_string()),
+            };
+            let text = &format!("[{route}] {text}");
+            struct Ev(Box<dyn Fn(&[V]) -> exmex::ExResult<V>>); impl Ev { fn eval(&self, v: &[V]) -> exmex::ExResult<V> { (self.0)(v) } }
+            let d = match dd.map(Ev) { Ok(d) => d, Err(er) => { cases.push(C { note: format!("d/dv{idx} {text}"), family: "val-derivative", ok: false, onote: format!("partial failed: {er}"), answer: String::new() }); continue } };
             for pt in &pts {
                 for ints in [false] {
                     // integer points only where every coordinate is integral
@@ -638,4 +671,62 @@ pub fn dump_tables(path: &str) {
     s.push_str(&format!("Definition partial_rule_names : list (str * bool * bool) :=\n [{}].\n", items.join(";\n  ")));
     let old = std::fs::read_to_string(path).unwrap_or_default();
     if old != s { std::fs::write(path, s).unwrap(); println!("tables: rewritten {path}"); } else { println!("tables: unchanged"); }
+}
+
+/// C06 "never hangs" on the value-typed entry points (oracle only): every operator of the value table over i64/f64 applied
+/// to huge operands -- as literals folded at parse time (parse_val, FlatEx/DeepEx over Val) and as variable values at
+/// evaluation time -- returns (a value, an error value or an error) within a generous time budget.  Each probe runs in its
+/// own thread; a probe that does not return is reported and its thread abandoned (the process exits at the end).
+pub fn run_c06t(a: &Args) {
+    use exmex::{parse_val, Express, Val, MakeOperators};
+    use std::sync::mpsc; use std::time::Duration;
+    type V = Val<i64, f64>;
+    type DV<'a> = exmex::DeepEx<'a, V, exmex::ValOpsFactory<i64, f64>, exmex::ValMatcher>;
+    let budget = Duration::from_secs(if a.thorough { 40 } else { 25 });
+    let ops = exmex::ValOpsFactory::<i64, f64>::make();
+    let lits = ["9223372036854775807", "4611686018427387904", "2147483648", "1000000000000", "99999999999999999999", "179769313486231570000000000000000000000.0", "0.000000000000000000001"];
+    let rights = ["2", "63", "64", "9223372036854775807", "0.5", "-1", "1000000000"];
+    let mut probes: Vec<(String, Option<Vec<V>>)> = vec![];
+    for o in &ops {
+        let name = o.repr();
+        if o.constant().is_some() { continue }
+        if o.has_unary() { for l in lits { probes.push((format!("{name}({l})"), None)); probes.push((format!("1+{name} {l}*2"), None)); } }
+        if o.has_bin() { for l in lits { for rr in rights { probes.push((format!("{l} {name} {rr}"), None)); probes.push((format!("{name}({l}, {rr})"), None)); } } }
+        let vals: Vec<V> = vec![Val::Int(i64::MAX), Val::Int(i64::MIN), Val::Int(1 << 40), Val::Float(1e300), Val::Float(f64::INFINITY), Val::Float(f64::NAN), Val::Float(-1e19)];
+        if o.has_unary() { for v in &vals { probes.push((format!("{name}(x)"), Some(vec![v.clone()]))); } }
+        if o.has_bin() { for v in &vals { for w in [Val::Int(i64::MAX), Val::Int(63), Val::Int(-1), Val::Float(0.5), Val::Float(1e300)] { probes.push((format!("x {name} y"), Some(vec![v.clone(), w.clone()]))); } } }
+    }
+    let _ = a.n;
+    struct C { note: String, ok: bool, onote: String }
+    let mut cases: Vec<C> = vec![]; let mut hung = 0;
+    for (text, vals) in probes {
+        let note = match &vals { None => format!("{text:?} (literals)"), Some(v) => format!("{text:?} at {v:?}") };
+        if hung >= 4 { continue }
+        let (tx, rx) = mpsc::channel::<Result<(), String>>();
+        let (t2, v2) = (text.clone(), vals.clone());
+        std::thread::Builder::new().stack_size(64 << 20).spawn(move || {
+            let r = std::panic::catch_unwind(|| {
+                let leaked: &'static str = Box::leak(t2.clone().into_boxed_str());
+                if let Ok(e) = parse_val::<i64, f64>(leaked) { match &v2 { Some(v) if v.len() == e.var_names().len() => { let _ = e.eval(v); let _ = e.clone().eval_vec(v.clone()); } None if e.var_names().is_empty() => { let _ = e.eval(&[]); } _ => () } }
+                if let Ok(d) = DV::parse(leaked) { match &v2 { Some(v) if v.len() == d.var_names().len() => { let _ = d.eval(v); } None if d.var_names().is_empty() => { let _ = d.eval(&[]); } _ => () } }
+                if let Ok(f) = exmex::FlatEx::<V, exmex::ValOpsFactory<i64, f64>, exmex::ValMatcher>::parse_wo_compile(leaked) { match &v2 { Some(v) if v.len() == f.var_names().len() => { let _ = f.eval(v); } None if f.var_names().is_empty() => { let _ = f.eval(&[]); } _ => () } }
+            });
+            let _ = tx.send(r.map_err(|_| "panicked".to_string()));
+        }).unwrap();
+        match rx.recv_timeout(budget) {
+            Ok(Ok(())) => cases.push(C { note, ok: true, onote: String::new() }),
+            Ok(Err(m)) => cases.push(C { note, ok: false, onote: m }),
+            Err(_) => { hung += 1; cases.push(C { note, ok: false, onote: format!("parsing and evaluating did not return within {} s (hangs)", budget.as_secs()) }); }
+        }
+    }
+    std::fs::create_dir_all(&a.out).unwrap();
+    {
+        let mut f = std::io::BufWriter::new(std::fs::File::create(format!("{}/meta.json", a.out)).unwrap());
+        writeln!(f, "{{\"shard_size\": 1, \"n_shards\": 0, \"tables\": [[]], \"cases\": [").unwrap();
+        let items: Vec<String> = cases.iter().map(|c| format!("{{\"tb\": 0, \"family\": \"value-operators-on-huge-operands-return\", \"note\": {}, \"prog\": {}, \"size\": 2, \"nontrivial\": true, \"oracle_ok\": {}, \"oracle_note\": {}, \"answers\": [[\"returned\", {}]]}}",
+            json_str(&c.note), json_str(&format!("parse_val / DeepEx / parse_wo_compile over Val<i64,f64> on {}", c.note)), c.ok, json_str(&c.onote), json_str(if c.ok { "yes" } else { "no" }))).collect();
+        writeln!(f, "{}\n]}}", items.join(",\n")).unwrap();
+    }
+    println!("mode=c06t cases={} oracle_failures={}", cases.len(), cases.iter().filter(|c| !c.ok).count());
+    std::process::exit(0);
 }
